@@ -35,6 +35,30 @@ theorem C16_letters_distinct (a b : NodeState) (c : Char) (ha : writeLetterOf a 
 theorem C16_only_nostate_unwritten (st : NodeState) : writeLetterOf st = none ↔ st = .noState := by
   cases st <;> simp [writeLetterOf]
 
+/-! ### MgrNode state by severity × file type (`STEPfile::ReadInstance`'s switch, regenerated) -/
+
+/-- the state a node has after pass 2, given the state pass 1 gave it, the file type and the instance's severity -/
+def stateAfterRead (ft : FileType) (pass1 : NodeState) (sev : Sev) : NodeState :=
+  match ft with
+  | .exchange => exchangeStateOf sev
+  | .working => if workingReadKeepsState then pass1 else exchangeStateOf sev
+
+/-- the whole table: a working-session read never touches the state whatever the severity; an exchange read gives
+    complete for NULL/USERMSG, incomplete for INCOMPLETE/WARNING/INPUT_ERROR/BUG, "no state" for EXIT/DUMP/MAX -/
+theorem C16_state_table (p : NodeState) (sev : Sev) :
+    stateAfterRead .working p sev = p ∧
+    stateAfterRead .exchange p sev =
+      (match sev with
+       | .null | .usermsg => NodeState.complete
+       | .incomplete | .warning | .inputError | .bug => NodeState.incomplete
+       | .exit | .dump | .max => NodeState.noState) := by
+  cases sev <;> exact ⟨rfl, rfl⟩
+
+/-- the model's pass 2 is that table (with the severity it computes: unresolved references ⊔ attribute-level severity) -/
+theorem C16_pass2_uses_table (ft : FileType) (e : Entry) (hs : skipped ft e = false) (asev : Inst → Sev) :
+    finalState ft asev e = stateAfterRead ft (entryState ft e) (asev e.inst) := by
+  cases ft <;> rfl
+
 /-! ### helper lemmas -/
 
 theorem writeWorking_eq {s : Sess} (h : NoNoState s) : writeWorking s = s.nodes.map toEntry := by
